@@ -1,11 +1,12 @@
 // Replay for the KNOWN FINDINGS of the rch::mpsc Distributor  property=C11 / C04
 // obligations (all in U14_mpsc.Distributor::distribute::item_arm):
 //   the_distributor_does_not_wait_for_upstream_while_it_holds_a_subscribers_slot   (C11)  -> module idle, module upstream_end
-//   a_removed_subscriber_gets_nothing_more                                          (C04)  -> module remove
+//   a_removed_subscriber_gets_nothing_more                                          (C04)  -> module remove: REPAIRED by adfc516 (its first two
+//                                                                                          tests pass now; the third belongs to the idle finding)
 //   a_failure_of_the_distributed_channel_reaches_the_subscribers_as_a_failure       (C11)  -> module failure
 // How to run: save the four modules below as remoc/tests/rch/mpsc_distributor_{idle,remove,failure,upstream_end}.rs, add the four
 // `mod` lines to remoc/tests/rch/mod.rs,  timeout 300 cargo test --offline -p remoc --test tests mpsc_distributor
-// All fail (or time out) on the current tree, except the control test in the failure module.
+// All fail (or time out) on the current tree, except the control test in the failure module and the first two tests of module remove.
 
 // ======================= remoc/tests/rch/mpsc_distributor_idle.rs =======================
 //! While the mpsc distributor waits for the next upstream value it holds a reserved slot of
